@@ -60,6 +60,12 @@ CLAIMED = {
  "C20": ("other", "typestate-style guard rules on the token iterator for the TL2 combinator parsers",
          "Same rules as C19 on the TL2 parser functions, plus expect*(eof) only as the loop exit of the file parser. The OptionalState progress discipline is covered only as 'unbounded loops have an exit'; termination by token consumption is not decided.",
          "clause only; trusts go/types", "DESIGN.md §3 C20"),
+ "C21": ("other", "field-use coverage: type-resolved field writes of the parser vs field reads of the printer family over the call graph",
+         "Decides only a necessary condition of the print→parse round trip: every schema-meaning AST field the TL1 parser writes (positions and comments excluded; Arithmetic.Res listed as derived) is read by some function of the String() printer family reachable from Combinator.String. Does not decide that the printed text re-parses to the same combinators.",
+         "clause only; reachability over-approximates the printer family", "DESIGN.md §3 C21"),
+ "C25": ("other", "loop-totality rule on Generate2TL, effective-tag rule, field-use coverage of the canonical printer family",
+         "Decides that Generate2TL emits exactly one canonicalFormWithTag line per combinator (skipping only nil entries and the five builtin names), that the tag printed after the constructor name is the 8-hex-digit Crc32() (effective tag), and that every schema-meaning field written by the parser is read by the canonical printer family. Does not decide that each line parses back to the same combinator (needs execution); the F2 defect of the canonical form is recorded under C23.",
+         "clause only", "DESIGN.md §3 C25"),
  "C23": ("other", "call-graph non-interference between the canonical and the ordinary printer families + dominance rules on tag assignment",
          "Decides that crc32() is ChecksumIEEE over canonicalForm(), that Construct.ID is computed only when no explicit tag was parsed and explicit tags are stored verbatim (base 16), and that nothing reachable from canonicalForm reads layout/comment fields or as-written arithmetic or crosses into the ordinary printer family. One genuine deviation is a known finding (bracket fields). The CRC value and token-level layout of the canonical text are not decided.",
          "trusts go/types and hash/crc32", "DESIGN.md §3 C23"),
